@@ -37,8 +37,8 @@ PENDING, GRANTED, CANCELLED = 0, 1, 2
 A_RI = z3.ArraySort(Ref, I)
 
 TRUSTED_ASYNCIO = [
-    "asyncio.Future: states pending -> result-set | cancelled, never back; done() <=> not pending; cancelled() <=> cancelled; set_result() on a pending future sets its result",
-    "Task.cancel() on a task suspended on a pending future cancels that future; a task resumes from `await fut` normally only if fut's result is set, and with CancelledError only if fut is cancelled or a cancellation was requested after the result was set",
+    "asyncio.Future: states pending -> result-set | cancelled, never back; done() <=> not pending; cancelled() <=> cancelled; set_result() on a pending future sets its result - proved for the reference implementation by unit asyncio.futures.Future; assumed: the C accelerator behaves like it",
+    "Task.cancel() on a task suspended on a pending future cancels that future; a task resumes from `await fut` normally only if fut's result is set, and with CancelledError only if fut is cancelled or a cancellation was requested after the result was set - proved for the reference implementation by unit asyncio.tasks.Task (cancel / __wakeup / __step) and Future.__await__; assumed: the C accelerator behaves like it",
     "collections.deque: append/remove/iteration; modelled as a duplicate-free collection (only fresh futures are appended - checked structurally)",
     "ghost cardinalities of the pending / granted waiter sets: trusted container facts (DESIGN 2.3)",
     "cooperative atomicity; mathematical integers; `math.inf - 1 == math.inf`",
@@ -1243,9 +1243,9 @@ def arr_b(name):
 
 GATHER_PROPS = ("C08", "C12", "C13", "C02")
 TRUSTED_GATHER = TRUSTED_ASYNCIO + [
-    "asyncio.Future: a done-callback registered with add_done_callback runs exactly once, after the future is done; exception()/result() raise InvalidStateError while pending and CancelledError when cancelled",
+    "asyncio.Future: a done-callback registered with add_done_callback runs exactly once, after the future is done; exception()/result() raise InvalidStateError while pending and CancelledError when cancelled - proved for the reference implementation by unit asyncio.futures.Future (scheduling through loop.call_soon, which is assumed to run each handle once); assumed: the C accelerator behaves like it",
     "finite sets: a subset with the same cardinality is the whole set",
-    "Task: the task awaiting a future resumes with that future's result / exception",
+    "Task: the task awaiting a future resumes with that future's result / exception - proved for the reference implementation (Task.__wakeup/__step, Future.__await__) by the units asyncio.tasks.Task / asyncio.futures.Future",
 ]
 
 
